@@ -75,8 +75,15 @@ TRead ==
              ELSE IF E.want # E.got THEN {"C18-reader-on-destination-differs-from-source"} ELSE {})
   /\ UNCHANGED tvars4
 
-TOther == E.ev \notin {"xfer", "rd"} /\ Rej({"unknown-event"}) /\ UNCHANGED tvars4
-TNext == (HasEvent /\ (TXfer \/ TRead \/ TOther)) \/ (Finish /\ UNCHANGED tvars4)
+\* a second ln into a destination that already holds links to this source, from another source tree with the same relative
+\* paths: whatever it does with the destination (the real command refuses), the first source keeps its bytes
+TRelink ==
+  /\ E.ev = "relink"
+  /\ AdvNote(IF E.src_changed # <<>> THEN {"C18-source-content-changed"} ELSE {})
+  /\ UNCHANGED tvars4
+
+TOther == E.ev \notin {"xfer", "rd", "relink"} /\ Rej({"unknown-event"}) /\ UNCHANGED tvars4
+TNext == (HasEvent /\ (TXfer \/ TRead \/ TRelink \/ TOther)) \/ (Finish /\ UNCHANGED tvars4)
 TSpec == TInit /\ [][TNext]_allv
 
 \* the design-level invariants on every state of every implementation trace
